@@ -265,3 +265,111 @@ class RefSymEq(Contract):
   def small_models(self):
     from pyvc.contracts import Model
     yield Model({}, {})
+
+
+# ---------------------------------------------------------------------------
+# pg.Object: equality and order of two objects of the same class are those of
+# their attribute dictionaries (whose laws are the dict branch of eq / lt,
+# checked by the bounded tier), objects of different classes are ordered by the
+# generic rule -- so that exactly one of <, ==, > holds also for classes whose
+# instances may carry different sets of keys (pattern keys, **kwargs).
+
+SO6 = 'pyglove.core.symbolic.object'
+
+
+class _ObjA(pg.Object):
+  pass
+
+
+class _ObjB(pg.Object):
+  pass
+
+
+class _ObjASub(_ObjA):
+  pass
+
+
+class _ObjectCompare(Contract):
+  prop = 'C06'
+  method = None
+
+  def inputs(self, b):
+    self._attrs_self = SObj(pg.Dict, {}, name='self_attributes')
+    self._attrs_same = SObj(pg.Dict, {}, name='other_attributes')
+    s = SObj(_ObjA, {'_sym_attributes': self._attrs_self}, name='self')
+    same_cls = SObj(_ObjA, {'_sym_attributes': self._attrs_same}, name='other_same_class')
+    other_cls = SObj(_ObjB, {'_sym_attributes': SObj(pg.Dict, {}, name='x')}, name='other_other_class')
+    sub_cls = SObj(_ObjASub, {'_sym_attributes': SObj(pg.Dict, {}, name='y')}, name='other_subclass')
+    self._same, self._diff, self._self = same_cls, other_cls, s
+    other = b.choice('other_kind', [same_cls, other_cls, sub_cls, s, 5, None])
+    return dict(self=s, other=other), {}
+
+  def setup_policy(self, policy):
+    me = self
+
+    def rel(name):
+      def h(interp, frame, args, kwargs):
+        a = [interp.resolve(x) for x in args]
+        r = SBool(z3.Bool(f'{name}_of_the_arguments'))
+        interp.path.event(name, name, (a, r))
+        return r
+      return h
+    policy.contracts[f'{SB}:eq'] = rel('eq')
+    policy.contracts[f'{SB}:lt'] = rel('lt')
+
+  def small_models(self):
+    from pyvc.contracts import Model
+    yield Model({}, {})
+
+  def replay(self, obligation, m):
+    @pg.members([('x', pg.typing.Int())])
+    class K(pg.Object):
+      pass
+    @pg.members([('x', pg.typing.Int()), (pg.typing.StrKey(), pg.typing.Any())])
+    class V(pg.Object):
+      pass
+    bad = []
+    for a, b_ in ((V(x=1), V(x=1, y=2)), (V(x=1, p=1), V(x=1, q=1)), (K(x=1), K(x=2)), (K(x=1), K(x=1)), (K(x=1), V(x=1))):
+      lt, eq, gt = pg.lt(a, b_), pg.eq(a, b_), pg.gt(a, b_)
+      if lt + eq + gt != 1:
+        bad.append(f'{a!r} vs {b_!r}: lt={lt} eq={eq} gt={gt}')
+    return dict(outcome='reproduced' if bad else 'not-reproduced', detail='; '.join(bad) or 'exactly one of <, ==, > holds')
+
+
+@register
+class ObjectSymLt(_ObjectCompare):
+  target = f'{SO6}:Object.sym_lt'
+
+  def trace_order_of_the_attribute_dicts_or_the_generic_rule(self, events, outcome, interp, env):
+    if outcome[0] != 'return':
+      return False
+    other = interp.resolve(env['other'])
+    calls = [e for e in events if e.kind == 'lt']
+    if len(calls) != 1 or [e for e in events if e.kind == 'eq']:
+      return False
+    args, r = calls[0].data
+    if interp.resolve(outcome[1]) is not r:
+      return False
+    if other is self._same:
+      return args[0] is self._attrs_self and args[1] is self._attrs_same
+    if other is self._self:
+      return args[0] is self._attrs_self and args[1] is self._attrs_self
+    return args[0] is self._self and args[1] is other
+
+
+@register
+class ObjectSymEq(_ObjectCompare):
+  target = f'{SO6}:Object.sym_eq'
+
+  def trace_equality_of_the_attribute_dicts_for_the_same_class_only(self, events, outcome, interp, env):
+    if outcome[0] != 'return':
+      return False
+    other = interp.resolve(env['other'])
+    calls = [e for e in events if e.kind == 'eq']
+    res = interp.resolve(outcome[1])
+    if other is self._self:
+      return res is True and not calls
+    if other is self._same:
+      return (len(calls) == 1 and calls[0].data[0][0] is self._attrs_self and calls[0].data[0][1] is self._attrs_same
+              and res is calls[0].data[1])
+    return res is False and not calls
